@@ -66,6 +66,9 @@ pub struct Ep {
     task: Task,
     server: Server,
     tcp: bool,
+    /// second concretisation: a remote candidate is being checked through the relay (permission created, channel bound)
+    bind: bool,
+    channel: Option<u16>,
     /// transaction id of the Allocate request that is waiting for its answer (phase pre)
     pending_txid: Option<[u8; 12]>,
     pub phase: &'static str,
@@ -81,7 +84,7 @@ fn with_txid(mut msg: Vec<u8>, txid: &[u8; 12]) -> Vec<u8> {
 const PEER: &str = "192.0.2.7:40000";
 
 impl Ep {
-    pub async fn build(tcp: bool) -> Result<Ep, String> {
+    pub async fn build(tcp: bool, bind: bool) -> Result<Ep, String> {
         let (server, port) = if tcp {
             let l = TcpListener::bind("127.0.0.1:0").await.map_err(|e| e.to_string())?;
             let port = l.local_addr().unwrap().port();
@@ -125,7 +128,7 @@ impl Ep {
         cfg.ice_transport_policy = IceTransportPolicy::Relay;
         cfg.bind_ip = Some("127.0.0.1".into());
         let (ice, runner) = IceTransport::new(cfg);
-        let mut ep = Ep { ice, task: Task::new("ice-runner", runner), server, tcp, pending_txid: None, phase: "pre" };
+        let mut ep = Ep { ice, task: Task::new("ice-runner", runner), server, tcp, bind, channel: None, pending_txid: None, phase: "pre" };
         ep.ice.start_gathering().map_err(|e| e.to_string())?;
         // pre: wait for the Allocate request
         let mut got = None;
@@ -192,6 +195,60 @@ impl Ep {
         }
     }
 
+    /// A remote candidate is signalled; the agent checks it through the relay: the server grants the permission and the
+    /// channel binding, after which ChannelData on that channel is relayed traffic from the peer.
+    async fn bind_channel(&mut self) -> Result<(), String> {
+        use rustrtc::transports::ice::{IceCandidate, IceParameters, IceRole};
+        self.ice.set_role(IceRole::Controlling);
+        self.ice.add_remote_candidate(IceCandidate::host(PEER.parse().unwrap(), 1));
+        self.ice.start(IceParameters::new("peerufrag", "peerpassword0123456789ab")).map_err(|e| e.to_string())?;
+        let Ep { task, server, channel, .. } = self;
+        let mut replies: Vec<Vec<u8>> = Vec::new();
+        let t0 = std::time::Instant::now();
+        while channel.is_none() && t0.elapsed() < Duration::from_secs(5) {
+            pump(
+                &mut [task],
+                || {
+                    while let Some(m) = server.try_recv() {
+                        if let Ok(d) = StunMessage::decode(&m) {
+                            if d.class == StunClass::Request && matches!(d.method, StunMethod::CreatePermission | StunMethod::ChannelBind | StunMethod::Refresh) {
+                                if d.method == StunMethod::ChannelBind {
+                                    // CHANNEL-NUMBER attribute (0x000C)
+                                    let mut off = 20;
+                                    while off + 4 <= m.len() {
+                                        let t = u16::from_be_bytes([m[off], m[off + 1]]);
+                                        let l = u16::from_be_bytes([m[off + 2], m[off + 3]]) as usize;
+                                        if t == 0x000C && off + 6 <= m.len() {
+                                            *channel = Some(u16::from_be_bytes([m[off + 4], m[off + 5]]));
+                                        }
+                                        off += 4 + ((l + 3) & !3);
+                                    }
+                                }
+                                let ok = StunMessage { class: StunClass::SuccessResponse, method: d.method, transaction_id: d.transaction_id, attributes: vec![] }
+                                    .encode(None, false)
+                                    .unwrap();
+                                replies.push(ok);
+                            }
+                        }
+                    }
+                    !replies.is_empty()
+                },
+                Duration::from_millis(500),
+            )
+            .await;
+            for r in replies.drain(..) {
+                server.send(&r).await;
+            }
+        }
+        if channel.is_none() {
+            return Err("the agent never asked for a channel binding".into());
+        }
+        // the binding is installed when the success response has been processed
+        pump_rounds(&mut [task], 4).await;
+        while server.try_recv().is_some() {}
+        Ok(())
+    }
+
     pub async fn progress(&mut self, to: &str) -> Result<(), String> {
         match to {
             "est" => {
@@ -200,6 +257,9 @@ impl Ep {
                 }
                 // let the runner pick up the relay socket and start its read loop
                 pump_rounds(&mut [&mut self.task], 3).await;
+                if self.bind {
+                    self.bind_channel().await?;
+                }
                 self.phase = "est";
             }
             "closing" => {
@@ -215,7 +275,7 @@ impl Ep {
     /// The genuine message of `tpl` as this session's server would send it now.
     pub fn genuine(&self, tpl: &str) -> Option<Vec<u8>> {
         let mut m = match tpl {
-            "turn.channeldata" => templates::channeldata(0x4000, &super::ice::check_for(&self.ice)),
+            "turn.channeldata" => templates::channeldata(self.channel.unwrap_or(0x4000), &super::ice::check_for(&self.ice)),
             "stun.data_ind" => data_indication(&super::ice::check_for(&self.ice)),
             "stun.binding_req" => super::ice::check_for(&self.ice),
             other => templates::genuine(other)?,
